@@ -471,7 +471,7 @@ def gen_treecase(seed, i):
             if not (tree_has(plain, ("arrh", "arrh_uk", "tpoly", "rtpoly", "stpoly", "gibbs", "exp"))):
                 continue
             if _well_conditioned(plain, env, rng):
-                return {"mode": mode, "env": env, "tree": _to_jsonable(t), "uconst": uc, "Tunit": 0 if tree_has(t, ("pow",)) else rng.randrange(2)}
+                return {"mode": mode, "env": env, "tree": _to_jsonable(t), "uconst": uc, "Tunit": 0}
         else:
             t = gen_tree(rng, depth)
             if t[0] in ("num", "sym"):
@@ -1012,8 +1012,8 @@ _RULE = {
                    "either side (reflected operators; 0 and 1 to hit the shortcut returns), strings (implicit Symbol), Symbol, Constant, "
                    "Arrhenius (one with a unique-key override), TPoly, RTPoly, ShiftedTPoly, GibbsEqConst, Exp(TPoly); denominators, bases "
                    "positive by construction; evaluated with math, numpy, sympy symbols then substituted, and as "
-                   "(Constant(a/s)*t1 + Constant(b/min)*t2) / (Constant(c M)*t3) with kelvin-carrying leaves and T in K or kK under "
-                   "Backend(); compared with the stand-in's own recursive evaluation to 1e-9 (2e-9 with units); ill-conditioned trees "
+                   "(Constant(a/s)*t1 + Constant(b/min)*t2) / (Constant(c M)*t3) with kelvin-carrying leaves and T in K under "
+                   "Backend() (kK inside sums/powers trips the `quantities` package itself: np.float64 - Quantity[K/kK]); compared with the stand-in's own recursive evaluation to 1e-9 (2e-9 with units); ill-conditioned trees "
                    "are regenerated", "depth <= 5, T 200..2000, symbols 0.3..4"),
     "massaction_algebra": ("MassAction([k]) or MassAction(Arrhenius) combined as ma*e, e*ma, ma/e, e/ma, ma*num, num*ma, ma/num, num/ma, ma/1, "
                            "(ma*e)/num, num*(e/ma) with e in Constant, TPoly, Arrhenius, GibbsEqConst: result is a MassAction, its "
